@@ -17,7 +17,8 @@ ID = "C02"
 RULE = ("histories on a fresh Directory volume: (a) exhaustive: PUT of sizes {0, 1, small, >2^18} x pre-state "
         "{absent, intact copy, stored by an acknowledged PUT, corrupt copy} x {run, SIGKILL at every verifPoint reached, context cancelled at every "
         "verifPoint reached}; (b) WriteBlock with a scripted reader: SIGKILL after every chunk, reader error after every "
-        "chunk, write failure at a byte limit (RLIMIT_FSIZE), each also killed inside the error path; (c) random histories "
+        "chunk, write failure at a byte limit (RLIMIT_FSIZE), each also killed inside the error path; (c) two overlapping PUTs of one block in one process (A held mid-copy, B started and held, A acknowledged, "
+        "B cancelled / finished / process killed); (d) random histories "
         "of seed/tick/put/wb/touch/del/untrash/empty ops with kill points. A case is non-trivial when at least one op is "
         "killed, cancelled or faulted; distinct = distinct case line")
 ASSUMPTIONS = [
@@ -144,6 +145,28 @@ def _put_family(rng, kind, pre, exhaustive):
     return [f"hist {head}put:{b}:{m}" for m in modes]
 
 
+def _put2_family(rng, kind, exhaustive):
+    """Two overlapping PUTs of one block (client retry / two clients): A held mid-copy after ja chunks,
+    B started and held after jb chunks, A acknowledged, then B cancelled / finished / process killed."""
+    b = _spec(rng, kind)
+    size = int(b.split(".")[0])
+    chunk = min(32768, max(1, (size + 3) // 4, 1 if exhaustive else rng.choice([1, 4096, 32768])))
+    n = _chunks(size, chunk)
+    pre = rng.choice(["", f"seed:{b}:corrupt;"])
+    pairs = [(ja, jb) for ja in range(n + 1) for jb in range(n + 1)]
+    if not exhaustive:
+        lower = [p for p in pairs if p[1] < p[0]]
+        pairs = rng.sample(lower, min(2, len(lower))) + rng.sample(pairs, min(1, len(pairs)))
+    cases = []
+    for ja, jb in pairs:
+        ends = ["cancel", "finish", "kill"] if exhaustive else [rng.choice(["cancel", "cancel", "kill", "finish"])]
+        for e in ends:
+            if e == "cancel" and jb == n and n > 0:
+                continue  # everything delivered: nothing left to cancel mid-copy
+            cases.append(f"hist {pre}put2:{b}:{chunk}:{ja}:{jb}:{e}")
+    return cases
+
+
 def _put_enumeration(rng, kinds, exhaustive):
     cases = []
     for kind in kinds:
@@ -250,12 +273,16 @@ def generate(rng, tier):
         # sampled kill / cancel points (stratified); the thorough tier enumerates every point
         cases += _put_enumeration(rng, ["zero", "one", "small", "big"], False)
         cases += _wb_enumeration(rng, ["big"], False)
+        for kind in ("small", "small", "big"):
+            cases += _put2_family(rng, kind, False)
         cases += [_random_history(rng, tier) for _ in range(45)]
     else:
         cases += _put_enumeration(rng, ["zero", "one", "small", "small", "mid", "big"], True)
         cases += _put_enumeration(rng, ["small", "big"], True)
         for _ in range(2):
             cases += _wb_enumeration(rng, ["mid", "big"], True)
+        for kind in ("one", "small", "small", "mid", "big"):
+            cases += _put2_family(rng, kind, True)
         cases += [_random_history(rng, tier) for _ in range(400)]
     return cases
 
@@ -346,6 +373,8 @@ def oracle(case, impl):
                     acked.pop(s_)
         if g[0] == "put" and (result == "200" or result == "killed/200"):
             acked[g[1]] = o
+        if g[0] == "put2" and (result.startswith("200&") or result.endswith("&200") or result == "killed/200"):
+            acked[g[1]] = o
         # (1)
         for spec, v in d["get"].items():
             b, h = body(spec)
@@ -417,7 +446,7 @@ def describe(cases, impl):
             if g[0] not in ("tick", "seed"):
                 m = g[-1][0] if g[-1] != "run" else "run"
                 modes[m] = modes.get(m, 0) + 1
-            if g[0] in ("put", "wb"):
+            if g[0] in ("put", "wb", "put2"):
                 n = int(g[1].split(".")[0])
                 k = "0" if n == 0 else "1" if n == 1 else "2-32768" if n <= 32768 else "32769-262144" if n <= 1 << 18 else ">262144"
                 sizes[k] = sizes.get(k, 0) + 1
@@ -438,7 +467,7 @@ def neighbours(case, rng):
         new = []
         for o in ops:
             g = o.split(":")
-            if g[0] not in ("tick", "seed") and rng.random() < 0.6:
+            if g[0] not in ("tick", "seed", "put2") and rng.random() < 0.6:
                 g[-1] = rng.choice(["run"] + [f"k{i}" for i in range(10)] + ([f"c{i}" for i in range(10)] + [f"m{j}x{c}" for j in range(3) for c in (1, 4096)] if g[0] == "put" else []))
             if g[0] == "wb" and rng.random() < 0.4:
                 size = int(g[1].split(".")[0])
